@@ -1,6 +1,7 @@
 package main
 
 import (
+	"os"
 	"fmt"
 	"go/ast"
 	"go/token"
@@ -46,9 +47,30 @@ func (fr *Frame) callOrdinal(name string) int {
 
 // doCall performs the effect of a call on fr.cur and returns the result value.
 func (fr *Frame) doCall(ins ssa.Instruction, c *ssa.CallCommon, args []Val, rt types.Type) (Val, bool) {
+	if fr.q.opts == nil || !fr.q.opts.Cost {
+		return fr.doCall0(ins, c, args, rt)
+	}
+	pre := fr.q.get(fr.cur.st, "$ticks")
+	fr.callMode = ""
+	res, ok := fr.doCall0(ins, c, args, rt)
+	mode := fr.callMode
+	if os.Getenv("GOVC_DEBUG_COST") != "" {
+		fmt.Fprintf(os.Stderr, "cost: %s calls %v mode=%s\n", fr.fn.Name(), c.Value.Name(), mode)
+	}
+	if fr.cur.reach == "false" {
+		return res, ok
+	}
+	if ct, assumed := fr.callCost(mode, c, args, res); assumed {
+		fr.cur.st.v["$ticks"] = "(+ " + pre + " " + ct + ")"
+	}
+	return res, ok
+}
+
+func (fr *Frame) doCall0(ins ssa.Instruction, c *ssa.CallCommon, args []Val, rt types.Type) (Val, bool) {
 	q := fr.q
 	st := fr.cur.st
 	if b, ok := c.Value.(*ssa.Builtin); ok {
+		fr.callMode = "builtin"
 		return fr.builtin(ins, b, c, args, rt), true
 	}
 	if c.IsInvoke() {
@@ -60,8 +82,10 @@ func (fr *Frame) doCall(ins ssa.Instruction, c *ssa.CallCommon, args []Val, rt t
 			}
 		}
 		if v, ok := fr.invokeIntrinsic(ins, c, recv, args, rt); ok {
+			fr.callMode = "extern"
 			return v, true
 		}
+		fr.callMode = "invoke"
 		ms := fr.invokeModSet(c)
 		fr.havocMod(st, ms)
 		return fr.freshVal(fr.prefix+"_inv_"+c.Method.Name(), rt, fr.cur.reach, st), true
@@ -100,21 +124,61 @@ func (fr *Frame) doCall(ins ssa.Instruction, c *ssa.CallCommon, args []Val, rt t
 		}
 	}
 	if v, ok := fr.intrinsic(ins, callee, c, args, rt); ok {
+		fr.callMode = "extern"
 		return v, true
 	}
 	ct := q.eng.contractFor(callee, q.opts)
 	if ct != nil && len(ct.Requires) == 0 && len(ct.Ensures) == 0 && fr.canInline(callee) {
 		ct = nil // a contract that only carries loop clauses (closures): the body is executed in place
 	}
+	if ct != nil && ct.Default && smallLoopFree(callee) && fr.canInline(callee) {
+		// a small loop-free helper that merely falls under a default contract is seen through its body, which says
+		// more than the default contract does (e.g. a helper that tests the depth limit for its caller)
+		ct = nil
+	}
 	if ct != nil {
+		fr.callMode = "modular"
+		if !ct.hasCost() {
+			fr.callMode = "opaque"
+		}
 		return fr.modularCall(ins, callee, ct, c, args, rt), true
 	}
 	if fr.canInline(callee) {
+		fr.callMode = "inline"
 		return fr.inlineCall(ins, callee, args, free, rt), true
 	}
+	fr.callMode = "opaque"
 	ms := q.eng.modsets[callee]
 	fr.havocMod(st, ms)
 	return fr.freshVal(fr.prefix+"_r_"+sanitize(callee.Name()), rt, fr.cur.reach, st), true
+}
+
+var smallCache = map[*ssa.Function]bool{}
+
+func smallLoopFree(fn *ssa.Function) bool {
+	if v, ok := smallCache[fn]; ok {
+		return v
+	}
+	n := 0
+	ok := fn.Blocks != nil
+	for _, b := range fn.Blocks {
+		n += len(b.Instrs)
+		for _, s := range b.Succs {
+			if s.Dominates(b) {
+				ok = false
+			}
+		}
+		for _, ins := range b.Instrs {
+			if _, isDefer := ins.(*ssa.Defer); isDefer {
+				ok = false
+			}
+		}
+	}
+	if n > 60 {
+		ok = false
+	}
+	smallCache[fn] = ok
+	return ok
 }
 
 func (fr *Frame) canInline(callee *ssa.Function) bool {
@@ -158,6 +222,14 @@ func (fr *Frame) havocMod(st *State, ms *ModSet) {
 	restore(st)
 }
 
+// havocTicks: an unknown, non-negative number of steps was spent
+func (fr *Frame) havocTicks(st *State) {
+	old := fr.q.get(st, "$ticks")
+	n := fr.q.fresh("ticks", "Int")
+	fr.q.assume("true", fmt.Sprintf("(>= %s %s)", n, old))
+	st.v["$ticks"] = n
+}
+
 func (fr *Frame) havocMod0(st *State, ms *ModSet) {
 	q := fr.q
 	if ms == nil || ms.All {
@@ -170,6 +242,9 @@ func (fr *Frame) havocMod0(st *State, ms *ModSet) {
 		}
 		n := q.fresh(smtSym(a)+"@h", famSort(q, a))
 		st.v[a] = n
+	}
+	if q.opts != nil && q.opts.Cost {
+		fr.havocTicks(st)
 	}
 	if ms.Alloc {
 		old := q.get(st, "$top")
@@ -249,7 +324,30 @@ func (fr *Frame) modularCall(ins ssa.Instruction, callee *ssa.Function, ct *Cont
 	env.st = st
 	env.old = pre
 	env.bindResults(callee, res)
+	var pk, calleePosAfter string
+	pkNoLook := false
+	if q.opts.Cost && q.peakFam != "" && len(args) > 0 {
+		if fam, off, ok := q.eng.cursorOf(callee); ok {
+			// the callee's own peak: at least where its cursor started and where it ended
+			pk = q.fresh(fr.prefix+"_peak", "Int")
+			a := sAdd(args[0].C[0], sInt(int64(off)))
+			before := fmt.Sprintf("(select %s %s)", q.get(pre, fam), a)
+			calleePosAfter = fmt.Sprintf("(select %s %s)", q.get(st, fam), a)
+			q.assume(fr.cur.reach, fmt.Sprintf("(and (>= %s %s) (>= %s %s))", pk, before, pk, calleePosAfter))
+			if !ct.mentionsPeak() {
+				// a contract that does not speak of peak() does not justify any of its cost by looking ahead: as far as
+				// the caller's accounting goes the callee looked no further than where it stopped
+				q.assume(fr.cur.reach, sEq(pk, fmt.Sprintf("(ite (>= %s %s) %s %s)", before, calleePosAfter, before, calleePosAfter)))
+				q.assume(fr.cur.reach, "true")
+				pkNoLook = true
+			}
+			env.peakOverride = pk
+		}
+	}
 	for i, en := range ct.Ensures {
+		if en.Tag == "C20" && !q.opts.Cost {
+			continue
+		}
 		t, err := env.evalBool(en.Expr)
 		if err != nil {
 			if !ct.Default && !en.Inherited {
@@ -258,6 +356,16 @@ func (fr *Frame) modularCall(ins ssa.Instruction, callee *ssa.Function, ct *Cont
 			continue
 		}
 		q.assume(fr.cur.reach, t)
+	}
+	if pk != "" {
+		// the caller's peak follows (when the callee works on the same object), and what the callee looked at beyond
+		// its final cursor is added to the look-ahead total
+		same := sEq(args[0].C[0], q.peakBase)
+		hw := q.get(st, "$hw")
+		st.v["$hw"] = fmt.Sprintf("(ite (and %s (> %s %s)) %s %s)", same, pk, hw, pk, hw)
+		if !pkNoLook {
+			st.v["$look"] = fmt.Sprintf("(+ %s (- %s %s))", q.get(st, "$look"), pk, calleePosAfter)
+		}
 	}
 	if ct.OnUse != nil {
 		ct.OnUse(fr, callee, args, res, pre)
@@ -270,7 +378,11 @@ func (fr *Frame) modularCall(ins ssa.Instruction, callee *ssa.Function, ct *Cont
 func (fr *Frame) inlineCall(ins ssa.Instruction, callee *ssa.Function, args, free []Val, rt types.Type) Val {
 	q := fr.q
 	child := newFrame(q, callee, fr)
-	if mc, ok := callCommonOf(ins).Value.(*ssa.MakeClosure); ok {
+	mcv := callCommonOf(ins).Value
+	if fr.closureOverride != nil {
+		mcv = fr.closureOverride
+	}
+	if mc, ok := mcv.(*ssa.MakeClosure); ok {
 		for i, b := range mc.Bindings {
 			if i < len(callee.FreeVars) {
 				if r, ok := fr.resolveLocal(b); ok {
@@ -557,6 +669,9 @@ func (fr *Frame) mapLookup(x *ssa.Lookup, base Val) {
 	q := fr.q
 	st := fr.cur.st
 	mt := underlying(x.X.Type()).(*types.Map)
+	if kb, isB := underlying(mt.Key()).(*types.Basic); isB && kb.Info()&types.IsString != 0 {
+		fr.tick("(slen " + fr.val(x.Index).C[0] + ")") // hashing / comparing the key
+	}
 	has, vfs, _, ok := mapFams(mt)
 	if !ok {
 		fr.vals[x] = fr.freshVal(fr.sym(x), x.Type(), fr.cur.reach, st)
@@ -575,9 +690,15 @@ func (fr *Frame) mapLookup(x *ssa.Lookup, base Val) {
 	}
 	fr.setVal(x, out)
 	fr.typeInv(Val{C: fr.vals[x].C[:len(vfs)]}, mt.Elem(), fr.cur.reach, st)
+	if q.opts.OnMapLookup != nil {
+		q.opts.OnMapLookup(fr, x, fr.vals[x])
+	}
 }
 
 func (fr *Frame) mapUpdate(x *ssa.MapUpdate) {
+	if fr.q.opts.OnMapUpdate != nil {
+		fr.q.opts.OnMapUpdate(fr, x)
+	}
 	st := fr.cur.st
 	mt := underlying(x.Map.Type()).(*types.Map)
 	m := fr.val(x.Map).C[0]
@@ -802,7 +923,7 @@ func (fr *Frame) loopHeaderState(li *loopInfo, in *State) *State {
 	return hs
 }
 
-var ghostLoopHavoc = map[string]bool{}
+var ghostLoopHavoc = map[string]bool{"$ticks": true, "$hw": true, "$look": true}
 
 func (fr *Frame) loopSpecFor(li *loopInfo) *LoopSpec {
 	ct := fr.contract
@@ -827,13 +948,27 @@ func (fr *Frame) loopSpecFor(li *loopInfo) *LoopSpec {
 	}
 	// Houdini candidates derived from the contract itself (DESIGN 1.3 "loops"): every requires clause, every
 	// result-free ensures clause, and the latter with old() read as pre() (= the state at loop entry).
-	for _, c := range autoCandidates(ct) {
+	cands := autoCandidates(ct)
+	if w := ct.Loops[-1]; w != nil {
+		cands = append(append([]Clause(nil), cands...), w.Invariants...)
+	}
+	for _, c := range cands {
 		key := fmt.Sprintf("%d:%s", li.ordinal, c.Text)
 		if fr.autoDrop[key] {
 			continue
 		}
 		c.Auto = true
 		ls.Invariants = append(ls.Invariants, c)
+	}
+	if !fr.q.opts.Cost {
+		// clauses about the step counter exist only in cost mode
+		kept := ls.Invariants[:0:0]
+		for _, c := range ls.Invariants {
+			if c.Tag != "C20" {
+				kept = append(kept, c)
+			}
+		}
+		ls.Invariants = kept
 	}
 	if len(ls.Invariants) == 0 && ls.Decreases == nil {
 		return nil
@@ -849,12 +984,14 @@ func autoCandidates(ct *Contract) []Clause {
 	}
 	var out []Clause
 	seen := map[string]bool{}
+	curTag := ""
 	var add func(txt string)
 	add = func(txt string) {
 		c, err := parseClause(txt)
 		if err != nil {
 			return
 		}
+		c.Tag = curTag
 		// split top-level conjunctions: each conjunct is its own candidate
 		if be, ok := c.Expr.(*ast.BinaryExpr); ok && be.Op == token.LAND {
 			add(exprString(be.X))
@@ -872,12 +1009,14 @@ func autoCandidates(ct *Contract) []Clause {
 		out = append(out, c)
 	}
 	for _, r := range ct.Requires {
+		curTag = r.Tag
 		add(r.Src)
 	}
 	for _, e := range ct.Ensures {
 		if mentionsResult(e.Expr) {
 			continue
 		}
+		curTag = e.Tag
 		add(e.Src)
 		if strings.Contains(e.Src, "old(") {
 			add(strings.ReplaceAll(e.Src, "old(", "pre("))
@@ -1008,4 +1147,209 @@ func (fr *Frame) loopBackObligations(li *loopInfo) {
 			}
 		}
 	}
+}
+
+
+// ---------- cost accounting (C20) ----------
+
+func (ct *Contract) hasCost() bool {
+	for _, e := range ct.Ensures {
+		if e.Tag == "C20" {
+			return true
+		}
+	}
+	return false
+}
+
+func argLen(v Val, t types.Type) string {
+	switch u := underlying(t).(type) {
+	case *types.Basic:
+		if u.Info()&types.IsString != 0 && len(v.C) >= 1 {
+			return "(slen " + v.C[0] + ")"
+		}
+	case *types.Slice:
+		if len(v.C) >= 2 {
+			return v.C[1]
+		}
+	}
+	return ""
+}
+
+// callCost: the assumed number of steps of a call whose body the generator does not execute. Returns false when the
+// call was executed in place or under a contract that states its cost (the ticks are then already accounted for), or
+// when nothing may be assumed (same-package function without a cost contract, function value).
+func (fr *Frame) callCost(mode string, c *ssa.CallCommon, args []Val, res Val) (string, bool) {
+	q := fr.q
+	switch mode {
+	case "inline", "modular", "":
+		return "", false
+	case "builtin":
+		b := c.Value.(*ssa.Builtin)
+		switch b.Name() {
+		case "append":
+			if len(c.Args) == 2 {
+				if l := argLen(args[1], c.Args[1].Type()); l != "" {
+					return l, true // amortised: growth is geometric
+				}
+			}
+			return "0", true
+		case "copy":
+			if len(res.C) == 1 {
+				return res.C[0], true
+			}
+		}
+		return "0", true
+	}
+	callee := c.StaticCallee()
+	name := ""
+	sameModule := false
+	samePkg := false
+	if callee != nil {
+		name = callee.String()
+		if callee.Pkg != nil {
+			sameModule = strings.HasPrefix(callee.Pkg.Pkg.Path(), modPath)
+			samePkg = callee.Pkg == fr.root().fn.Pkg
+		}
+	} else if c.IsInvoke() {
+		name = c.Value.Type().String() + "." + c.Method.Name()
+		if n, ok := c.Value.Type().(*types.Named); ok && n.Obj().Pkg() != nil {
+			sameModule = strings.HasPrefix(n.Obj().Pkg().Path(), modPath)
+		}
+	} else {
+		return "", false // function value
+	}
+	if mode == "opaque" && samePkg {
+		return "", false // must carry a cost contract of its own
+	}
+	// lengths of the string / slice arguments (receiver included)
+	var lens []string
+	sig := c.Signature()
+	var ats []types.Type
+	if callee != nil {
+		for _, p := range callee.Params {
+			ats = append(ats, p.Type())
+		}
+	} else {
+		ats = append(ats, c.Value.Type())
+		for i := 0; i < sig.Params().Len(); i++ {
+			ats = append(ats, sig.Params().At(i).Type())
+		}
+		ats = ats[1:]
+	}
+	for i, a := range args {
+		if i < len(ats) {
+			if l := argLen(a, ats[i]); l != "" {
+				lens = append(lens, l)
+			}
+		}
+	}
+	sum := "1"
+	if len(lens) > 0 {
+		sum = "(+ 1 " + strings.Join(lens, " ") + ")"
+	}
+	switch name {
+	case "strings.Index", "bytes.Index", "strings.IndexByte", "bytes.IndexByte", "strings.IndexRune", "strings.IndexAny":
+		// found at r: r + len(sep) steps; not found: the whole haystack
+		if len(res.C) == 1 && len(lens) >= 1 {
+			sep := "1"
+			if len(lens) >= 2 {
+				sep = lens[1]
+			}
+			return fmt.Sprintf("(+ 1 (ite (>= %s 0) (+ %s %s) %s))", res.C[0], res.C[0], sep, lens[0]), true
+		}
+	case "(*regexp.Regexp).FindStringIndex", "(*regexp.Regexp).FindIndex":
+		// leftmost match: the automaton reads up to the end of the match, or the whole text when there is none (RE2: linear)
+		if len(res.C) == 3 && len(lens) >= 1 {
+			lf := layoutOf(types.Typ[types.Int]).leaves[0]
+			arr := q.get(fr.cur.st, lf.Arr)
+			q.costAssumed["regexp Find*Index: cost = end of the leftmost match, or the text length when nothing matches (RE2 matching is linear and stops at the leftmost match)"] = true
+			return fmt.Sprintf("(+ 1 (ite (= %s 0) %s (select %s (+ %s 1))))", res.C[0], lens[len(lens)-1], arr, res.C[0]), true
+		}
+	case "sort.Search", "sort.SearchInts", "sort.SearchStrings":
+		q.costAssumed["sort.Search*: at most 64 probes (binary search over an int-indexed range)"] = true
+		return "64", true
+	case "strings.HasPrefix", "bytes.HasPrefix", "strings.HasSuffix", "bytes.HasSuffix":
+		if len(lens) >= 2 {
+			return "(+ 1 " + lens[1] + ")", true
+		}
+	case "unicode/utf8.DecodeRune", "unicode/utf8.DecodeRuneInString", "unicode/utf8.DecodeLastRune", "unicode/utf8.RuneLen", "unicode/utf8.EncodeRune", "unicode/utf8.AppendRune", "unicode/utf8.ValidRune", "unicode/utf8.RuneStart", "unicode/utf8.FullRune":
+		return "0", true // constant time: not counted
+	}
+	if strings.HasPrefix(name, "unicode.") {
+		return "0", true
+	}
+	if strings.HasPrefix(name, "fmt.Sprint") || strings.HasPrefix(name, "fmt.Errorf") {
+		// the rendered text is linear in the format and the string operands (operands here are strings, integers, runes)
+		if len(res.C) >= 1 {
+			q.costAssumed["fmt.Sprintf/Errorf: cost linear in the format, its string operands and 32 per operand"] = true
+		}
+		return sum, true
+	}
+	kind := "library"
+	if sameModule {
+		kind = "repository function outside the package under contract"
+		if mode == "invoke" {
+			kind = "repository interface method"
+		}
+	}
+	q.costAssumed["assumed linear in its string/slice arguments ("+kind+"): "+name] = true
+	return sum, true
+}
+
+
+// evalClosureAt: the value a closure literal returns for the given arguments in the current state, under an extra
+// guard (used to instantiate the predicate handed to sort.Search at the two indices that characterise its result).
+// The state is left untouched; obligations of the closure body are emitted under the guard.
+func (fr *Frame) evalClosureAt(ins ssa.Instruction, mc *ssa.MakeClosure, args []Val, guard string) (Val, bool) {
+	callee, ok := mc.Fn.(*ssa.Function)
+	if !ok || len(callee.Blocks) == 0 || fr.depth > 3 {
+		return Val{}, false
+	}
+	var free []Val
+	for _, b := range mc.Bindings {
+		free = append(free, fr.val(b))
+	}
+	saved := fr.cur
+	fr.cur = flow{reach: sAnd(saved.reach, guard), st: saved.st.clone()}
+	fr.closureOverride = mc
+	v := fr.inlineCall(ins, callee, args, free, callee.Signature.Results().At(0).Type())
+	fr.closureOverride = nil
+	okr := fr.cur.reach != "false"
+	fr.cur = saved
+	return v, okr
+}
+
+
+// cursorOf: family and cell offset of the declared cursor field of fn's pointer receiver
+func (e *Engine) cursorOf(fn *ssa.Function) (fam string, off int, ok bool) {
+	if fn == nil || fn.Signature.Recv() == nil || len(fn.Params) == 0 || e.Cursors == nil {
+		return "", 0, false
+	}
+	pt, isP := underlying(fn.Params[0].Type()).(*types.Pointer)
+	if !isP {
+		return "", 0, false
+	}
+	path, has := e.Cursors[typeID(pt.Elem())]
+	if !has {
+		return "", 0, false
+	}
+	for _, lf := range layoutOf(pt.Elem()).leaves {
+		if lf.Path == path {
+			famLeafSort[lf.Arr] = lf.Sort
+			return lf.Arr, lf.Off, true
+		}
+	}
+	return "", 0, false
+}
+
+func (q *Query) peakAddrBase() string { return q.peakBase }
+
+
+func (ct *Contract) mentionsPeak() bool {
+	for _, e := range ct.Ensures {
+		if strings.Contains(e.Src, "peak(") {
+			return true
+		}
+	}
+	return false
 }
